@@ -250,6 +250,7 @@ class StubDB:
         self.next_calls = 0
         self.issued = []
         self.fail_next = 0
+        self.fail_skip = 0
         self.fail_targets = 0
         self.faults = 0
         self.version_tables = ({}, {}, {}, {})
@@ -283,7 +284,9 @@ class StubDB:
         return list(self.target_list)
 
     def _next(self):
-        if self.fail_next:
+        if self.fail_next and self.fail_skip:
+            self.fail_skip -= 1  # the fault hits a later call of the batch
+        elif self.fail_next:
             self.fail_next -= 1
             self.faults += 1
             raise InjectedFault('database unavailable (injected)')
